@@ -196,8 +196,8 @@ def obsLines (pn : Bytes → NumC) (raw : List (Bytes × String)) (id : String) 
 open Spec.Keys in
 def specProj (pn : Bytes → Spec.ParseNum.SNum) (id : String) (specific : List Bytes) (pi : Nat) (p : PSpec)
     (obs : List Obs) : String :=
-  let cols := columns specific p obs
-  let tuples := obs.map fun o => cols.map fun c => c.value specific o
+  let cols := columns specific p obs       -- fields also grow on results that are not interned
+  let tuples := (obs.filter (·.interned)).map fun o => cols.map fun c => c.value specific o
   let distinct := dedupTuples tuples
   let n := distinct.length
   let ids := tuples.map fun t => firstIndex distinct t
@@ -225,7 +225,7 @@ def specLines (raw : List (Bytes × String)) (id : String) (ops : List Op) : Lis
   let ps := projections ops
   let perProj := ps.zipIdx.map fun (p, i) => specProj pn id specific i p (observations ops ps i)
   let alls := ops.filterMap fun
-    | .all r => some r
+    | .all r => if r.units.isEmpty then none else some r
     | _ => none
   let anyUnit := ps.any (·.unit)
   let same := fun (r r' : Res) => sameInfo specific r r' && (!anyUnit || r.units.head? == r'.units.head?)
